@@ -534,57 +534,79 @@ func runVariant(c *lib.Ctx, variant string) {
 		}
 	}
 	c.Count("cases_per_site_"+variant, int64(len(cases)))
-	var wg sync.WaitGroup
-	workers := 3
-	for _, s := range sites {
-		ch := make(chan Case, 256)
-		for w := 0; w < workers; w++ {
-			wg.Add(1)
-			go func(s *Site) {
-				defer wg.Done()
-				k := &lib.Conn{Addr: fmt.Sprintf("127.0.0.1:%d", s.Port), Timeout: 60 * time.Second}
-				defer k.Close()
-				prev := ""
-				for cs := range ch {
-					if sut.IsAborted() {
-						c.Count("skipped_after_crashes", 1)
-						continue
-					}
-					raw := BuildRaw(s.Prefix, s.Port, cs)
-					c.Journal("C02 %s %q", s, raw)
-					var r *lib.Resp
-					for attempt := 0; attempt < 3; attempt++ {
-						gen := sut.Gen()
-						sut.Note(s.String() + " " + string(raw))
-						r = k.Do(cs.Method, raw)
-						if r.Status != 0 || !sut.CheckCrash(gen) {
-							break
+	runCases := func(cases []Case) {
+		var wg sync.WaitGroup
+		workers := 3
+		for _, s := range sites {
+			ch := make(chan Case, 256)
+			for w := 0; w < workers; w++ {
+				wg.Add(1)
+				go func(s *Site) {
+					defer wg.Done()
+					k := &lib.Conn{Addr: fmt.Sprintf("127.0.0.1:%d", s.Port), Timeout: 60 * time.Second}
+					defer k.Close()
+					prev := ""
+					for cs := range ch {
+						if sut.IsAborted() {
+							c.Count("skipped_after_crashes", 1)
+							continue
 						}
+						raw := BuildRaw(s.Prefix, s.Port, cs)
+						c.Journal("C02 %s %q", s, raw)
+						var r *lib.Resp
+						for attempt := 0; attempt < 3; attempt++ {
+							gen := sut.Gen()
+							sut.Note(s.String() + " " + string(raw))
+							r = k.Do(cs.Method, raw)
+							if r.Status != 0 || !sut.CheckCrash(gen) {
+								break
+							}
+						}
+						if cs.Method == "HEAD" && strings.Contains(cs.Query, "archive=") {
+							// side finding (belongs to C12, not judged here): browse streams the archive
+							// body after the header of a HEAD response (io.Copy takes net/http's ReadFrom
+							// fast path), which desynchronises a keep-alive connection.
+							k.Close()
+						}
+						if r.Status == 0 {
+							c.SampleTag("conn_error_prev", 4, map[string]interface{}{"prev": prev, "cur": string(raw), "err": head([]byte(fmt.Sprint(r.Err)), 60)})
+						}
+						prev = string(raw)
+						judge(c, s, cfPath, cs, raw, r)
 					}
-					if cs.Method == "HEAD" && strings.Contains(cs.Query, "archive=") {
-						// side finding (belongs to C12, not judged here): browse streams the archive
-						// body after the header of a HEAD response (io.Copy takes net/http's ReadFrom
-						// fast path), which desynchronises a keep-alive connection.
-						k.Close()
-					}
-					if r.Status == 0 {
-						c.SampleTag("conn_error_prev", 4, map[string]interface{}{"prev": prev, "cur": string(raw), "err": head([]byte(fmt.Sprint(r.Err)), 60)})
-					}
-					prev = string(raw)
-					judge(c, s, cfPath, cs, raw, r)
-				}
-			}(s)
-		}
-		wg.Add(1)
-		go func() {
-			defer wg.Done()
-			for _, cs := range cases {
-				ch <- cs
+				}(s)
 			}
-			close(ch)
-		}()
+			wg.Add(1)
+			go func() {
+				defer wg.Done()
+				for _, cs := range cases {
+					ch <- cs
+				}
+				close(ch)
+			}()
+		}
+		wg.Wait()
 	}
-	wg.Wait()
+	runCases(cases)
+	// Second phase: the origin Casketfile is replaced by a NEW file (new inode,
+	// same path, same content) the way editors and deploy scripts do it (write
+	// a temporary file, rename it over). It is still the Casketfile the site
+	// was loaded from and must stay hidden under every spelling, in listings
+	// and in archives - also for a server that has already answered requests.
+	if b, err := os.ReadFile(cfPath); err == nil && !sut.IsAborted() {
+		tmp := cfPath + ".new"
+		if os.WriteFile(tmp, b, 0o644) == nil && os.Rename(tmp, cfPath) == nil {
+			var again []Case
+			for _, cs := range cases {
+				lt := strings.ToLower(cs.Target)
+				if strings.Contains(lt, "casketfile") || cs.Query != "" || cs.Target == "/" || cs.Target == "" {
+					again = append(again, cs)
+				}
+			}
+			c.Count("cases_after_casketfile_replaced", int64(len(again)))
+			runCases(again)
+		}
+	}
 }
 
 func run(c *lib.Ctx) {
